@@ -2,7 +2,7 @@
 from ..core import q
 from ..core.q import expect_term, site, peel
 from ..core.ir import walk, strip
-from ..core.norm import Norm, show, cshort, as_for_loop
+from ..core.norm import Norm, show, cshort, as_for_loop, _root_local
 from ..core import templates as T
 from .. import k8
 from .. import gen_rules as G
@@ -31,6 +31,24 @@ def set_compared_loop(s, ctx):
     """(d) consumer check: a `for` over a hash-ordered API whose body writes only into a SettingsValidationError"""
     fl = k8.for_loop_of(s)
     if fl is None:
+        # the same consumer written as `error.<list>.extend(api().filter(..).map(..))`: pure adaptors, sink rooted in the error value
+        chain, top = k8._consumer_chain(s)
+        if all(c in ("Iterator::filter", "Iterator::map", "Iterator::filter_map", "Iterator::cloned", "Iterator::copied") for c, _n in chain):
+            N = Norm(s.fn)
+            for p in reversed(s.parents):
+                if p.get("k") == "MethodCall" and cshort(p.get("callee", "")) == "Extend::extend" and any(k8.strip_eq(a, top) for a in p["args"]):
+                    root = _root_local(p["recv"])
+                    rec = N.defs.get(root)
+                    ty = peel(rec[2].get("ty", "")) if rec else "?"
+                    bad = []
+                    if not ty.endswith("error::SettingsValidationError"):
+                        bad.append("extend on a local of type %s" % ty)
+                    for _c, cn in chain:
+                        for a in cn["args"]:
+                            a2 = strip(a)
+                            if a2.get("k") == "Closure" and k8.loop_writes(a2["body"], None):
+                                bad.append("an adaptor closure writes to captured state")
+                    return bad
         return None
     m, pat, body, chain = fl
     ws = k8.loop_writes(body, None)
@@ -59,9 +77,9 @@ def check(ctx):
 def hash_order(ctx, floors=True):
     P = ctx.P
     sites = k8.hash_sites(P, LIBS)
-    ctx.count("hash-container flow sites", len(sites), 13 if floors else None)
+    ctx.count("hash-container flow sites", len(sites), 9 if floors else None)
     iter_sites = [s for s in sites if s.kind in ("iter", "iter-arg")]
-    ctx.count("hash iteration sources", len(iter_sites), 13 if floors else None)
+    ctx.count("hash iteration sources", len(iter_sites), 9 if floors else None)
     sorted_locals = {}
     api_fns = {}
     for s in sites:
@@ -198,7 +216,7 @@ def ambient(ctx, floors=True):
                     for name in (call.get("callee", ""), call.get("inst", "")):
                         if any(name.startswith(a) for a in AMBIENT):
                             hits.append((p, name, call.get("sp")))
-    ctx.count("call sites scanned for ambient nondeterminism", n_calls, 1000 if floors else None)
+    ctx.count("call sites scanned for ambient nondeterminism", n_calls, 700 if floors else None)
     if hits:
         for p, name, sp in sorted(set(hits)):
             ctx.bad("C06.2", "ambient/%s/%s" % (cshort(p), name), sp, "library code calls `%s`: ambient nondeterminism (environment, time, files, threads or unseeded randomness)" % name)
